@@ -20,7 +20,7 @@ mod util;
 use engine::{Case, Report};
 use model::Model;
 
-const KINDS: &[&str] = &["kmers", "revcomp", "posmaps", "mins", "kmins", "oligo", "cov", "cgr", "oligocgr", "oligobig", "posmapsp"];
+const KINDS: &[&str] = &["kmers", "revcomp", "posmaps", "mins", "kmins", "oligo", "cov", "cgr", "oligocgr", "oligobig", "posmapsp", "oligocgrbig"];
 
 fn parse_case(line: &str) -> Option<Case> {
     let line = line.trim();
@@ -38,7 +38,7 @@ fn parse_case(line: &str) -> Option<Case> {
             let nparams = match *kind {
                 "kmers" | "posmaps" | "cgr" => 1,
                 "revcomp" | "mins" | "kmins" | "oligo" | "oligobig" | "posmapsp" => 2,
-                "oligocgr" => 3,
+                "oligocgr" | "oligocgrbig" => 3,
                 "cov" => 4,
                 _ => 0,
             };
@@ -237,6 +237,7 @@ fn main() {
             let mut rng = util::Rng::new(seed);
             p_vec::run_c12_one(eff_tier, &mut rng, &model, &mut rep, corpus);
             p_cgrfile::run_cgr_files(true, eff_tier, &mut rng, &model, &mut rep, &corpus_lines, &work);
+            p_cli::run_c12_cli(&mut rep, eff_tier, seed, &model, &corpus_lines, &cli_bin, &work);
             rep
         }
         "C05" => p_file::run_files("C05", eff_tier, seed, &model, corpus_lines, &work),
